@@ -78,13 +78,13 @@ type Step struct {
 
 // Expect carries what the generator knows about a call independently of go-snaps.
 type Expect struct {
-	Invalid bool       `json:"invalid,omitempty"` // input is not valid JSON/YAML or not marshalable
-	Unwritable bool    `json:"unwritable,omitempty"` // the snapshot location cannot be created (parent is a regular file)
-	MFail   [][2]string `json:"mfail,omitempty"`  // failing matchers (name, path)
-	VID     string     `json:"vid,omitempty"`     // value identity when the text is only known to go-snaps
-	Inj     bool       `json:"inj,omitempty"`     // VID is injective within its family
-	Doc     string     `json:"doc,omitempty"`     // JSON APIs: the document that must be stored (any presentation)
-	Text    *string    `json:"text,omitempty"`    // expected formatted text when known independently
+	Invalid    bool        `json:"invalid,omitempty"`    // input is not valid JSON/YAML or not marshalable
+	Unwritable bool        `json:"unwritable,omitempty"` // the snapshot location cannot be created (parent is a regular file)
+	MFail      [][2]string `json:"mfail,omitempty"`      // failing matchers (name, path)
+	VID        string      `json:"vid,omitempty"`        // value identity when the text is only known to go-snaps
+	Inj        bool        `json:"inj,omitempty"`        // VID is injective within its family
+	Doc        string      `json:"doc,omitempty"`        // JSON APIs: the document that must be stored (any presentation)
+	Text       *string     `json:"text,omitempty"`       // expected formatted text when known independently
 }
 
 type ConcG struct {
@@ -112,8 +112,10 @@ type Matcher struct {
 	Shared      string          `json:"shared,omitempty"`
 }
 
-func strVal(s string) *Val   { return &Val{K: "str", B64: base64.StdEncoding.EncodeToString([]byte(s))} }
-func bytesVal(s string) *Val { return &Val{K: "bytes", B64: base64.StdEncoding.EncodeToString([]byte(s))} }
+func strVal(s string) *Val { return &Val{K: "str", B64: base64.StdEncoding.EncodeToString([]byte(s))} }
+func bytesVal(s string) *Val {
+	return &Val{K: "bytes", B64: base64.StdEncoding.EncodeToString([]byte(s))}
+}
 func goVal(name string) *Val { return &Val{K: "go", Name: name} }
 func sp(s string) *string    { return &s }
 func bp(b bool) *bool        { return &b }
@@ -140,14 +142,15 @@ type Proc struct {
 type Scenario struct {
 	ID      string
 	Init    []InitFile
-	Program []string         // test names the program contains
-	Configs map[string]*Cfg  // Dir is rewritten to live inside the scenario directory when relative ("@/x")
+	Program []string        // test names the program contains
+	Configs map[string]*Cfg // Dir is rewritten to live inside the scenario directory when relative ("@/x")
 	Procs   []*Proc
 	Tags    []string // known-finding reproductions etc.
 	Note    string
 	// DefaultLoc: the scenario uses go-snaps' default location (next to the test file), so it runs
 	// in a driver copy of its own; Init paths are relative to the driver directory and the
 	// projected directory is <driver>/__snapshots__.
+	OwnProc    bool // bulk scenario that must not share its driver process (a deadlocked gated run poisons the process-wide lock)
 	DefaultLoc bool
 	// WatchRel: further directories (relative to the package directory of the driver variant) to
 	// project, for relative Dir options (C11)
@@ -156,11 +159,11 @@ type Scenario struct {
 
 // Result of running a scenario
 type ScenarioRun struct {
-	Sc   *Scenario
-	Dir  string        // absolute scenario directory
-	Raw  [][]*RawEvent // per process
-	Err  error
-	Drv  string // driver directory the scenario ran in (tdir of the contract)
+	Sc  *Scenario
+	Dir string        // absolute scenario directory
+	Raw [][]*RawEvent // per process
+	Err error
+	Drv string // driver directory the scenario ran in (tdir of the contract)
 }
 
 func (s *Scenario) stepByID() map[string]*Step {
@@ -273,7 +276,7 @@ func runScenarios(sc *Scratch, d *Driver, scs []*Scenario, workers int, pool ...
 		}
 		sig := ""
 		for _, p := range s.Procs {
-			if p.Real || s.DefaultLoc {
+			if p.Real || s.DefaultLoc || s.OwnProc {
 				sig = fmt.Sprintf("real:%d", i) // own group
 				break
 			}
